@@ -330,6 +330,11 @@ func harnessC15() {
 	if !allowedOK {
 		vCover("refused-protocol")
 		vAssert(err != nil, "C14: the client never speaks a protocol outside its allowed list (reattach)")
+		c.Kill() // e.g. the caller's deferred Kill, or CleanupClients
+		if test {
+			vCover("refused-then-kill-test-mode")
+			vAssert(thePlugin.alive, "C15: in test mode Kill leaves the serving process running (client whose reattach was refused)")
+		}
 		vDone()
 	}
 	vCover("reattached")
